@@ -686,13 +686,19 @@ func (tic *TermInCommittee) isViewChangeValid(expectedLeaderFromNewView primitiv
 		return errors.Errorf("sender %s is not a member of the committee", Str(sender.MemberId()))
 	}
 
+	if preparedProof != nil && len(preparedProof.Raw()) > 0 {
+		if preparedProof.PreprepareBlockRef().InstanceId() != header.InstanceId() || preparedProof.PrepareBlockRef().InstanceId() != header.InstanceId() {
+			return fmt.Errorf("prepared proof belongs to another instance than the VIEW_CHANGE that carries it")
+		}
+	}
+
 	if !proofsvalidator.ValidatePreparedProof(tic.State.Height(), vcmView, preparedProof, tic.keyManager, tic.committeeMembers, func(view primitives.View) primitives.MemberId { return tic.calcLeaderMemberId(view) }) {
 		return fmt.Errorf("failed ValidatePreparedProof()")
 	}
 	return nil
 }
 
-func (tic *TermInCommittee) validateViewChangeVotes(targetBlockHeight primitives.BlockHeight, targetView primitives.View, confirmations []*protocol.ViewChangeMessageContent) error {
+func (tic *TermInCommittee) validateViewChangeVotes(targetInstanceId primitives.InstanceId, targetBlockHeight primitives.BlockHeight, targetView primitives.View, confirmations []*protocol.ViewChangeMessageContent) error {
 	senders := make([]primitives.MemberId, len(confirmations))
 	for i, confirmation := range confirmations {
 		senders[i] = confirmation.Sender().MemberId()
@@ -711,6 +717,9 @@ func (tic *TermInCommittee) validateViewChangeVotes(targetBlockHeight primitives
 		if confirmationBlockHeight != targetBlockHeight {
 			return fmt.Errorf("confirmation of memberId %s has block height %d which is different than targetBlockHeight %d ",
 				senderMemberIdStr, confirmationBlockHeight, targetBlockHeight)
+		}
+		if confirmation.SignedHeader().InstanceId() != targetInstanceId {
+			return fmt.Errorf("confirmation of memberId %s belongs to instance %s, not %s", senderMemberIdStr, confirmation.SignedHeader().InstanceId(), targetInstanceId)
 		}
 		if confirmation.SignedHeader().MessageType() != protocol.LEAN_HELIX_VIEW_CHANGE {
 			return fmt.Errorf("confirmation of memberId %s is a %s, not a VIEW_CHANGE", senderMemberIdStr, confirmation.SignedHeader().MessageType())
@@ -767,7 +776,7 @@ func (tic *TermInCommittee) HandleNewView(nvm *interfaces.NewViewMessage) {
 		return
 	}
 
-	if err := tic.validateViewChangeVotes(nvmHeader.BlockHeight(), nvmHeader.View(), viewChangeConfirmations); err != nil {
+	if err := tic.validateViewChangeVotes(nvmHeader.InstanceId(), nvmHeader.BlockHeight(), nvmHeader.View(), viewChangeConfirmations); err != nil {
 		//this.logger.log({ subject: "Warning", message: `blockHeight:[${blockHeight}], view:[${view}], HandleNewView from "${senderId}", votes is invalid` });
 		tic.logger.Info("LHMSG RECEIVED NEW_VIEW IGNORE - validateViewChangeVotes failed: %s", err)
 		return
